@@ -52,38 +52,66 @@ type target struct {
 	fn    string
 	name  string // Lean identifier
 	paths string // "main": follow fall-through at early returns
+	prim  string // receiver type whose methods are primitive ring operations at this level ("" = base field)
 }
 
 var targets = []target{
-	{"group/edwards25519", "completedGroupElement", "Add", "ge_completed_Add", ""},
-	{"group/edwards25519", "completedGroupElement", "Sub", "ge_completed_Sub", ""},
-	{"group/edwards25519", "completedGroupElement", "MixedAdd", "ge_completed_MixedAdd", ""},
-	{"group/edwards25519", "completedGroupElement", "MixedSub", "ge_completed_MixedSub", ""},
-	{"group/edwards25519", "completedGroupElement", "ToProjective", "ge_completed_ToProjective", ""},
-	{"group/edwards25519", "completedGroupElement", "ToExtended", "ge_completed_ToExtended", ""},
-	{"group/edwards25519", "projectiveGroupElement", "Double", "ge_projective_Double", ""},
-	{"group/edwards25519", "projectiveGroupElement", "Zero", "ge_projective_Zero", ""},
-	{"group/edwards25519", "extendedGroupElement", "Zero", "ge_extended_Zero", ""},
-	{"group/edwards25519", "extendedGroupElement", "Neg", "ge_extended_Neg", ""},
-	{"group/edwards25519", "extendedGroupElement", "Double", "ge_extended_Double", ""},
-	{"group/edwards25519", "extendedGroupElement", "ToCached", "ge_extended_ToCached", ""},
-	{"group/edwards25519", "extendedGroupElement", "ToProjective", "ge_extended_ToProjective", ""},
-	{"group/edwards25519", "cachedGroupElement", "Zero", "ge_cached_Zero", ""},
-	{"group/edwards25519", "cachedGroupElement", "Neg", "ge_cached_Neg", ""},
-	{"group/edwards25519", "preComputedGroupElement", "Zero", "ge_precomp_Zero", ""},
-	{"group/edwards25519", "preComputedGroupElement", "Neg", "ge_precomp_Neg", ""},
-	{"group/edwards25519vartime", "projPoint", "Add", "vt_proj_Add", ""},
-	{"group/edwards25519vartime", "projPoint", "Sub", "vt_proj_Sub", ""},
-	{"group/edwards25519vartime", "projPoint", "Neg", "vt_proj_Neg", ""},
-	{"group/edwards25519vartime", "projPoint", "double", "vt_proj_double", ""},
-	{"group/edwards25519vartime", "extPoint", "Add", "vt_ext_Add", ""},
-	{"group/edwards25519vartime", "extPoint", "Sub", "vt_ext_Sub", ""},
-	{"group/edwards25519vartime", "extPoint", "Neg", "vt_ext_Neg", ""},
-	{"group/edwards25519vartime", "extPoint", "double", "vt_ext_double", ""},
-	{"pairing/bn256", "curvePoint", "Add", "bn256_curve_Add", "main"},
-	{"pairing/bn256", "curvePoint", "Double", "bn256_curve_Double", "main"},
-	{"pairing/bn254", "curvePoint", "Add", "bn254_curve_Add", "main"},
-	{"pairing/bn254", "curvePoint", "Double", "bn254_curve_Double", "main"},
+	{"group/edwards25519", "completedGroupElement", "Add", "ge_completed_Add", "", ""},
+	{"group/edwards25519", "completedGroupElement", "Sub", "ge_completed_Sub", "", ""},
+	{"group/edwards25519", "completedGroupElement", "MixedAdd", "ge_completed_MixedAdd", "", ""},
+	{"group/edwards25519", "completedGroupElement", "MixedSub", "ge_completed_MixedSub", "", ""},
+	{"group/edwards25519", "completedGroupElement", "ToProjective", "ge_completed_ToProjective", "", ""},
+	{"group/edwards25519", "completedGroupElement", "ToExtended", "ge_completed_ToExtended", "", ""},
+	{"group/edwards25519", "projectiveGroupElement", "Double", "ge_projective_Double", "", ""},
+	{"group/edwards25519", "projectiveGroupElement", "Zero", "ge_projective_Zero", "", ""},
+	{"group/edwards25519", "extendedGroupElement", "Zero", "ge_extended_Zero", "", ""},
+	{"group/edwards25519", "extendedGroupElement", "Neg", "ge_extended_Neg", "", ""},
+	{"group/edwards25519", "extendedGroupElement", "Double", "ge_extended_Double", "", ""},
+	{"group/edwards25519", "extendedGroupElement", "ToCached", "ge_extended_ToCached", "", ""},
+	{"group/edwards25519", "extendedGroupElement", "ToProjective", "ge_extended_ToProjective", "", ""},
+	{"group/edwards25519", "cachedGroupElement", "Zero", "ge_cached_Zero", "", ""},
+	{"group/edwards25519", "cachedGroupElement", "Neg", "ge_cached_Neg", "", ""},
+	{"group/edwards25519", "preComputedGroupElement", "Zero", "ge_precomp_Zero", "", ""},
+	{"group/edwards25519", "preComputedGroupElement", "Neg", "ge_precomp_Neg", "", ""},
+	{"group/edwards25519vartime", "projPoint", "Add", "vt_proj_Add", "", ""},
+	{"group/edwards25519vartime", "projPoint", "Sub", "vt_proj_Sub", "", ""},
+	{"group/edwards25519vartime", "projPoint", "Neg", "vt_proj_Neg", "", ""},
+	{"group/edwards25519vartime", "projPoint", "double", "vt_proj_double", "", ""},
+	{"group/edwards25519vartime", "extPoint", "Add", "vt_ext_Add", "", ""},
+	{"group/edwards25519vartime", "extPoint", "Sub", "vt_ext_Sub", "", ""},
+	{"group/edwards25519vartime", "extPoint", "Neg", "vt_ext_Neg", "", ""},
+	{"group/edwards25519vartime", "extPoint", "double", "vt_ext_double", "", ""},
+	{"pairing/bn256", "curvePoint", "Add", "bn256_curve_Add", "main", ""},
+	{"pairing/bn256", "curvePoint", "Double", "bn256_curve_Double", "main", ""},
+	{"pairing/bn254", "curvePoint", "Add", "bn254_curve_Add", "main", ""},
+	{"pairing/bn254", "curvePoint", "Double", "bn254_curve_Double", "main", ""},
+	// extension-field tower and twist of BN256 / BN254: each level over the level below as an opaque ring
+	{"pairing/bn256", "gfP2", "Mul", "bn256_gfP2_Mul", "", ""},
+	{"pairing/bn256", "gfP2", "Square", "bn256_gfP2_Square", "", ""},
+	{"pairing/bn256", "gfP2", "MulXi", "bn256_gfP2_MulXi", "", ""},
+	{"pairing/bn256", "gfP2", "Add", "bn256_gfP2_Add", "", ""},
+	{"pairing/bn256", "gfP2", "Sub", "bn256_gfP2_Sub", "", ""},
+	{"pairing/bn256", "gfP2", "Neg", "bn256_gfP2_Neg", "", ""},
+	{"pairing/bn256", "gfP2", "Conjugate", "bn256_gfP2_Conjugate", "", ""},
+	{"pairing/bn256", "gfP6", "Mul", "bn256_gfP6_Mul", "", "gfP2"},
+	{"pairing/bn256", "gfP6", "MulTau", "bn256_gfP6_MulTau", "", "gfP2"},
+	{"pairing/bn256", "gfP6", "Add", "bn256_gfP6_Add", "", "gfP2"},
+	{"pairing/bn256", "gfP6", "Sub", "bn256_gfP6_Sub", "", "gfP2"},
+	{"pairing/bn256", "gfP6", "Neg", "bn256_gfP6_Neg", "", "gfP2"},
+	{"pairing/bn256", "gfP6", "Square", "bn256_gfP6_Square", "", "gfP2"},
+	{"pairing/bn256", "gfP12", "Mul", "bn256_gfP12_Mul", "", "gfP6"},
+	{"pairing/bn256", "gfP12", "Square", "bn256_gfP12_Square", "", "gfP6"},
+	{"pairing/bn256", "gfP12", "Conjugate", "bn256_gfP12_Conjugate", "", "gfP6"},
+	{"pairing/bn256", "twistPoint", "Add", "bn256_twist_Add", "main", "gfP2"},
+	{"pairing/bn256", "twistPoint", "Double", "bn256_twist_Double", "main", "gfP2"},
+	{"pairing/bn254", "gfP2", "Mul", "bn254_gfP2_Mul", "", ""},
+	{"pairing/bn254", "gfP2", "Square", "bn254_gfP2_Square", "", ""},
+	{"pairing/bn254", "gfP2", "MulXi", "bn254_gfP2_MulXi", "", ""},
+	{"pairing/bn254", "gfP6", "Mul", "bn254_gfP6_Mul", "", "gfP2"},
+	{"pairing/bn254", "gfP6", "MulTau", "bn254_gfP6_MulTau", "", "gfP2"},
+	{"pairing/bn254", "gfP12", "Mul", "bn254_gfP12_Mul", "", "gfP6"},
+	{"pairing/bn254", "twistPoint", "Add", "bn254_twist_Add", "main", "gfP2"},
+	{"pairing/bn254", "twistPoint", "Double", "bn254_twist_Double", "main", "gfP2"},
 }
 
 // primitive operations: callee name -> (op, number of source operands)
@@ -102,7 +130,16 @@ var intMethods = map[string]struct {
 	n  int
 }{"Add": {"add", 2}, "Sub": {"sub", 2}, "Mul": {"mul", 2}, "Neg": {"neg", 1}, "Set": {"copy", 1}}
 
+// methods of the tower types (gfP2, gfP6, gfP12) that set and return their receiver; used as primitive
+// ring operations when a function one level up is translated
+var towerMethods = map[string]struct {
+	op string
+	n  int
+}{"Add": {"add", 2}, "Sub": {"sub", 2}, "Mul": {"mul", 2}, "Square": {"sq", 1}, "Neg": {"neg", 1}, "Set": {"copy", 1},
+	"SetZero": {"zero", 0}, "SetOne": {"one", 0}, "MulXi": {"sp1", 1}, "MulTau": {"sp1", 1}, "Conjugate": {"sp2", 1}}
+
 type xlate struct {
+	prim string // receiver type name treated as primitive at this level
 	prog   *ssa.Program
 	out    []instr
 	guards []string
@@ -121,7 +158,7 @@ func (x *xlate) fail(format string, a ...any) {
 
 func isFieldElem(t types.Type) bool {
 	s := t.String()
-	for _, suf := range []string{"fieldElement", "mod.Int", ".gfP", "kyber.Scalar"} {
+	for _, suf := range []string{"fieldElement", "mod.Int", ".gfP", ".gfP2", ".gfP6", ".gfP12", "kyber.Scalar"} {
 		if strings.HasSuffix(s, suf) {
 			return true
 		}
@@ -196,6 +233,11 @@ func (x *xlate) callRecv(c *ssa.Call) (ssa.Value, bool) {
 	if f := cc.StaticCallee(); f != nil && f.Signature.Recv() != nil {
 		if _, ok := intMethods[f.Name()]; ok && strings.HasSuffix(f.Signature.Recv().Type().String(), "mod.Int") {
 			return cc.Args[0], true
+		}
+		if x.prim != "" && strings.HasSuffix(f.Signature.Recv().Type().String(), "."+x.prim) {
+			if _, ok := towerMethods[f.Name()]; ok {
+				return cc.Args[0], true
+			}
 		}
 	}
 	return nil, false
@@ -376,13 +418,31 @@ func (x *xlate) call(c *ssa.Call) {
 		x.fail("unsupported mod.Int method %s", f.Name())
 		return
 	}
+	if f.Signature.Recv() != nil {
+		rt := f.Signature.Recv().Type().String()
+		if x.prim != "" && strings.HasSuffix(rt, "."+x.prim) {
+			if m, ok := towerMethods[f.Name()]; ok {
+				x.emit(m.op, cc.Args[0], cc.Args[1:1+m.n]...)
+				return
+			}
+			if f.Name() == "IsZero" || f.Name() == "IsOne" {
+				return
+			}
+			x.fail("unsupported %s method %s", x.prim, f.Name())
+			return
+		}
+		if strings.HasSuffix(rt, ".gfP") && f.Name() == "Set" {
+			x.emit("copy", cc.Args[0], cc.Args[1])
+			return
+		}
+	}
 	switch f.Name() {
-	case "IsInfinity", "newGFp", "String":
+	case "IsInfinity", "newGFp", "String", "IsZero", "IsOne":
 		return // predicates feeding guards / constructors of constants
 	}
 	// inline a call to another function of the same package
 	if f.Pkg != nil && c.Parent().Pkg == f.Pkg && len(f.Blocks) > 0 {
-		sub := &xlate{prog: x.prog, subst: map[ssa.Value]loc{}, locals: x.locals, nloc: x.nloc, depth: x.depth + 1}
+		sub := &xlate{prog: x.prog, prim: x.prim, subst: map[ssa.Value]loc{}, locals: x.locals, nloc: x.nloc, depth: x.depth + 1}
 		for i, p := range f.Params {
 			l, ok := x.loc(cc.Args[i])
 			if !ok {
@@ -494,7 +554,7 @@ func main() {
 			continue
 		}
 		n := 0
-		x := &xlate{prog: prog, subst: map[ssa.Value]loc{}, locals: map[*ssa.Alloc]string{}, nloc: &n}
+		x := &xlate{prog: prog, prim: t.prim, subst: map[ssa.Value]loc{}, locals: map[*ssa.Alloc]string{}, nloc: &n}
 		x.function(fn, t.paths == "main")
 		if x.err != nil {
 			failed = append(failed, fmt.Sprintf("%s: %v", t.name, x.err))
